@@ -198,6 +198,7 @@ class Attack:
         self.out_cb = {}        # (T, ns) -> (id, token)
         self.cb_seen = []
         self.undecodable_seq = False
+        self.off_tokens = set()   # callbacks outstanding for the offender
 
     def witness(self, extra=None):
         w = {'case_index': self.index, 'kind': self.kind,
@@ -250,6 +251,14 @@ class Attack:
             for (t, ns), lst in list(r.issued.items()):
                 if t == self.OT:
                     r.step(['enter', lst[-1], 'lobby', ns])
+        if rng.random() < 0.6:
+            # the offender, too, has an acknowledgement outstanding
+            for (t, ns), lst in list(r.issued.items()):
+                if t == self.OT:
+                    self.tok += 1
+                    self.off_tokens.add(self.tok)
+                    r.step(['emit', self.tok, lst[-1], None, ns, 'fn'])
+            r.T[self.OT].drain()
         r.d.clear_errors()
         self.by_sids = set(self.by.values())
         self.by_T = {k[0] for k in self.by}
@@ -274,6 +283,21 @@ class Attack:
         elif mode < 0.33 and ser == 'default':
             sendf = [long_run_frames(rng)]
             ctx.count('long_run_frames')
+        elif 0.43 <= mode < 0.47 and ser == 'msgpack':
+            # truncated frames whose container headers declare far more
+            # elements / bytes than follow (array32, map32, str32, bin32),
+            # alone and nested: nothing may be reserved for the declaration
+            import struct
+            n = rng.choice([2 ** 20, 2 ** 24, 2 ** 27 - 1, 2 ** 31 - 1])
+            hdr = rng.choice([b'\xdd', b'\xdf', b'\xdb', b'\xc6'])
+            big = hdr + struct.pack('>I', n)
+            depth = rng.choice([1, 1, 2, 4])
+            body = b''.join([b'\xdd' + struct.pack('>I', n)] * (depth - 1)) \
+                + big
+            sendf = [b'\x82\xa4type\x02\xa4data' + body,
+                     b'\x83\xa4type\x02\xa3nsp\xa1/\xa4data' + body,
+                     body][rng.randrange(3):][:1]
+            ctx.count('msgpack_declared_size_frames')
         elif 0.39 <= mode < 0.43:
             # names that collide with the registry's catch-all key: an event
             # called "*" (any serializer) and - msgpack only, the text format
@@ -424,8 +448,9 @@ class Attack:
                                   'not decodable from the offending frame',
                                   {'frame': repr(op[2])[:400], 'event': e})
                         return False
-            if e[0] == 'callback':
-                self.fail('offender frame completed a callback (token %r)'
+            if e[0] == 'callback' and e[1] not in self.off_tokens:
+                self.fail('offender frame completed a callback that was '
+                          'registered for another client (token %r)'
                           % e[1], {'frame': repr(op[2])[:400]})
                 return False
         for T, pkts in res.get('sent', {}).items():
@@ -503,7 +528,19 @@ class Attack:
             return self.fail('bystander ACK leaked to another bystander')
         # broadcast to the room
         self.tok += 1
-        res = r.step(['emit', self.tok, 'lobby', None, ns, None])
+        # (sometimes the application passes a callback along: whatever that
+        # means for several recipients, the emit itself must go through)
+        cb = 'fn' if rng.random() < 0.4 else None
+        if cb:
+            # (registered once per recipient, the offender included when it
+            # is in the room: its own acknowledgement may complete its copy)
+            self.off_tokens.add(self.tok)
+        res = r.step(['emit', self.tok, 'lobby', None, ns, cb])
+        if res.get('exc'):
+            return self.fail('room broadcast%s raised %s during the attack'
+                             % (' with a callback' if cb else '',
+                                res['exc']),
+                             {'exc_tb': res.get('exc_tb')})
         got = sorted(t for t, pk in res['sent'].items() for p in pk
                      if t in self.by_T)
         want = sorted(t for (t, n2), rooms in self.rooms.items()
@@ -629,6 +666,7 @@ def run(ctx):
     ctx.require('derivability_checks', 20)
     ctx.require('bad_placeholder_index_packets', 20)
     ctx.require('catch_all_key_collision_frames', 20)
+    ctx.require('msgpack_declared_size_frames', 10)
     k = 0
     while not ctx.out_of_time() and not ctx.too_many_violations():
         traced = k % 3 == 0
